@@ -446,13 +446,15 @@ Proof.
   eapply TW_same; [exact H|reflexivity|reflexivity|cbn; lia].
 Qed.
 
-Lemma TW_sig_walk : forall fuel this sig s s', TW s -> sig_walk fixed_cfg env fuel this sig s = Some s' -> TW s'.
+Lemma TW_sig_walk : forall fuel bound this sig s s', TW s -> sig_walk fixed_cfg env fuel bound this sig s = Some s' -> TW s'.
 Proof.
-  induction fuel as [|f IH]; intros this sig s s' H Hw; [discriminate|].
+  induction fuel as [|f IH]; intros bound this sig s s' H Hw; [discriminate|].
   cbn [sig_walk] in Hw. destruct this as [id|]; [|inversion Hw; subst; exact H].
   destruct (find_sgw id (sgws s)) as [w|]; [|discriminate].
-  eapply IH; [|exact Hw]. destruct (g_sig w =? sig).
-  - apply TW_actions; [|apply env_ok]. eapply TW_same; [exact H|reflexivity|reflexivity|cbn; lia].
+  eapply IH; [|exact Hw]. destruct ((g_sig w =? sig) && (g_id w <? bound)).
+  - apply TW_actions.
+    + unfold sig_fire. destruct (g_id w <? 0); eapply TW_same; [exact H|reflexivity|reflexivity|cbn; lia|exact H|reflexivity|reflexivity|cbn; lia].
+    + unfold cb_acts. destruct (g_id w <? 0); [repeat constructor|apply env_ok].
   - eapply TW_same; [exact H|reflexivity|reflexivity|cbn; lia].
 Qed.
 
@@ -460,7 +462,7 @@ Lemma TW_dispatch_sigs : forall fuel sigs s s', TW s -> dispatch_sigs fixed_cfg 
 Proof.
   induction sigs as [|sg r IH]; intros s s' H Hd; [inversion Hd; subst; exact H|].
   cbn [dispatch_sigs] in Hd. destruct (is_watched s sg); [|eapply IH; eassumption].
-  destruct (sig_walk fixed_cfg env fuel (match sgws s with [] => None | h :: _ => Some (g_id h) end) sg s) as [s1|] eqn:Ew; [|discriminate].
+  destruct (sig_walk fixed_cfg env fuel (snext s) (match sgws s with [] => None | h :: _ => Some (g_id h) end) sg s) as [s1|] eqn:Ew; [|discriminate].
   eapply IH; [eapply TW_sig_walk; eassumption|exact Hd].
 Qed.
 
@@ -517,7 +519,9 @@ Proof.
       + eapply TW_stick; eassumption.
       + inversion E; subst. eapply TW_same; [exact H|reflexivity|reflexivity|cbn; lia].
       + inversion E; subst. eapply TW_same; [exact H|reflexivity|reflexivity|cbn; lia].
-      + eapply TW_run_passes; [|exact E]. eapply TW_same; [exact H|reflexivity|reflexivity|cbn; lia]. }
+      + destruct (run_passes fixed_cfg env fuel rk _) as [s2|] eqn:Er; [|discriminate]. inversion E; subst s1.
+        eapply TW_same; [eapply TW_run_passes; [|exact Er]|reflexivity|reflexivity|cbn; lia].
+        eapply TW_same; [exact H|reflexivity|reflexivity|cbn; lia]. }
   intros Hf. eapply G; [exact Hops|apply TW_sst0|exact Hf].
 Qed.
 
